@@ -24,24 +24,47 @@ PERIOD = "attr:self._period"
 NOW = "call:time.monotonic"
 
 
+def _in_lock(node: ast.AST, locks: list[ast.AST]) -> bool:
+    for lk in locks:
+        if isinstance(lk, ast.Try):
+            if any(within(node, st) for st in lk.body):
+                return True
+        elif within(node, lk):
+            return True
+    return False
+
+
 def check(an: Analysis) -> None:
     prog = an.prog
     f = prog.fn(F)
     g = an.cfg(f)
     d = Deps(prog, f)
     va, kwa = vararg_names(f)
-    locks = [w for w in f.own_nodes() if isinstance(w, ast.AsyncWith) and any(dotted(i.context_expr) == "self._lock" for i in w.items)]
+    locks: list[ast.AST] = [w for w in f.own_nodes() if isinstance(w, ast.AsyncWith) and any(dotted(i.context_expr) == "self._lock" for i in w.items)]
+    # equivalent explicit form:  await self._lock.acquire()  /  try: <region>  finally: self._lock.release()
+    for blk in [n for n in [f.node, *f.own_nodes()] if isinstance(getattr(n, "body", None), list)]:
+        for field in ("body", "orelse", "finalbody"):
+            stmts = getattr(blk, field, None)
+            if not isinstance(stmts, list):
+                continue
+            for s1, s2 in zip(stmts, stmts[1:]):
+                acq = isinstance(s1, ast.Expr) and isinstance(s1.value, ast.Await) and isinstance(s1.value.value, ast.Call) and dotted(s1.value.value.func) == "self._lock.acquire"
+                rel = isinstance(s2, ast.Try) and not s2.handlers and any(isinstance(x, ast.Expr) and isinstance(x.value, ast.Call) and dotted(x.value.func) == "self._lock.release" for x in s2.finalbody)
+                if acq and rel:
+                    region = ast.Module(body=s2.body, type_ignores=[])
+                    region._lock_region = s2  # type: ignore[attr-defined]
+                    locks.append(s2)
 
     # ------------------------------------------------------------------ C15.1 bookkeeping under the lock
     ob = an.ob("C15.1", "K6", "every read/write of self._entries happens inside `async with self._lock` (arrival order = lock FIFO order)", [F])
     uses = [n for n in f.own_nodes() if isinstance(n, ast.Attribute) and dotted(n) == "self._entries"]
     if len(locks) != 1:
-        ob.fail(f, None, f"expected one `async with self._lock` block, found {len(locks)}: the window bookkeeping is not serialised")
+        ob.missing(f, None, f"expected one locked region (`async with self._lock` or acquire/try/finally-release), found {len(locks)}: the window bookkeeping is not serialised")
     if len(uses) < 4:
         raise AnalysisError(f"C15.1: only {len(uses)} accesses to self._entries found (confirmed: 6)")
     for u in uses:
         ob.inst(f, parent(u))
-        if not any(within(u, lk) for lk in locks):
+        if not _in_lock(u, locks):
             ob.fail(f, parent(u), "the start-time window is accessed outside the lock: concurrent callers can both see a free slot")
     lv = prog.cls("helpers.throttling._AsyncThrottle").attr_val.get("_lock", [])
     init = prog.fn("helpers.throttling._AsyncThrottle.__init__")
@@ -55,7 +78,7 @@ def check(an: Analysis) -> None:
         ob.fail(f, None, f"the wrapped function is called {len(calls)} times")
     for c in calls:
         ob.inst(f, c)
-        if any(within(c, lk) for lk in locks):
+        if _in_lock(c, locks):
             ob.fail(f, c, "the wrapped call runs while the lock is held: calls are serialised for their whole duration instead of only being rate limited")
         if not forwards_varargs(c, va, kwa):
             ob.fail(f, c, "arguments are not forwarded unchanged")
@@ -90,7 +113,7 @@ def check(an: Analysis) -> None:
         ob.inst(f, s.ast)
         if not isinstance(parent(s.ast), ast.Await):
             ob.fail(f, s.ast, "the wait is not awaited")
-        if not any(within(s.ast, lk) for lk in locks):
+        if not _in_lock(s.ast, locks):
             ob.fail(f, s.ast, "the wait happens outside the lock: later arrivals overtake the waiting caller")
         arg = s.ast.args[0] if s.ast.args else None  # type: ignore[union-attr]
         lf = linear_form(d, arg) if arg is not None else None
@@ -113,7 +136,7 @@ def check(an: Analysis) -> None:
     clocks = [c for c in f.own_nodes() if isinstance(c, ast.Call) and an.callee(f, c) == "time.monotonic"]
     for c in clocks:
         ob.inst(f, c, "clock reading")
-        if not any(within(c, lk) for lk in locks):
+        if not _in_lock(c, locks):
             ob.fail(f, c, "the clock is read before the lock is held: a caller that queued on the lock works from a stale `now` - it neither purges the expired head entry nor waits long enough, and starts less than `period` after the call that was just admitted")
 
     # ------------------------------------------------------------------ C15.4 the start stamp
@@ -125,7 +148,7 @@ def check(an: Analysis) -> None:
         arg = a.ast.args[0] if a.ast.args else None  # type: ignore[union-attr]
         if not (isinstance(arg, ast.Call) and an.callee(f, arg) == "time.monotonic"):
             ob.fail(f, a.ast, "the recorded start time is not a fresh clock reading (a reading taken before the wait makes the window slide too early)")
-        if not any(within(a.ast, lk) for lk in locks):
+        if not _in_lock(a.ast, locks):
             ob.fail(f, a.ast, "the start is recorded after the lock was released")
         for s in sleeps:
             aw = [n for n in g.nodes if n.kind == "await" and n.ast.value is s.ast]  # type: ignore[union-attr]
@@ -186,29 +209,35 @@ def check(an: Analysis) -> None:
             w = g.search([g.entry], lambda n: n is s, skip_node=lambda n: n in loops)
             if w is not None:
                 ob.fail(f, s.ast, "the fullness test runs before old entries were purged", CFG.show_path(w))
-    pv = prog.cls("helpers.throttling._AsyncThrottle").attr_val.get("_period", [])
-    ms = [m for m in init.own_nodes() if isinstance(m, ast.Match) and is_name(m.subject, "period")]
-    if len(ms) != 1 or len(pv) != 2:
-        raise AnalysisError("C15.5: _AsyncThrottle.__init__ is expected to normalise `period` through one match with two arms")
-    got = set()
-    for case in ms[0].cases:
-        ob.inst(init, case)
-        pat = case.pattern
-        st = [s for s in case.body if isinstance(s, ast.Assign) and dotted(s.targets[0]) == "self._period"]
-        if not st:
-            ob.fail(init, case, "arm does not set self._period")
+    from ..kinds import A_FLOAT, A_INT, Abs, Scenario
+
+    gi = an.cfg(init)
+    dinit = Deps(prog, init)
+    stores = [n for n in gi.nodes if n.kind == "stmt" and isinstance(n.ast, (ast.Assign, ast.AnnAssign)) and getattr(n.ast, "value", None) is not None and dotted(n.ast.targets[0] if isinstance(n.ast, ast.Assign) else n.ast.target) == "self._period"]
+    if not stores:
+        ob.fail(init, None, "self._period is never set")
+    a_delta = Abs("timedelta", "object")
+    for label, value in (("a timedelta", a_delta), ("a float", A_FLOAT), ("an int", A_INT)):
+
+        def base(e: ast.AST, value=value):
+            if is_name(e, "period"):
+                return value
+            return NOVALUE
+
+        sc = Scenario(gi, dinit, base)
+        live = [n for n in stores if n.id in sc.reach]
+        ob.inst(init, None, f"period is {label}: {len(live)} store(s) of self._period")
+        if len(live) != 1:
+            ob.fail(init, stores[0].ast if stores else None, f"with period = {label}, self._period is set {len(live)} times (must be exactly once)")
             continue
-        v = st[0].value
-        if isinstance(pat, ast.MatchAs) and isinstance(pat.pattern, ast.MatchClass) and (dotted(pat.pattern.cls) or "").endswith("timedelta"):
-            got.add("timedelta")
-            if not (isinstance(v, ast.Call) and isinstance(v.func, ast.Attribute) and v.func.attr == "total_seconds" and is_name(v.func.value, pat.name or "")):
-                ob.fail(init, case, "a timedelta period is not converted with total_seconds() (e.g. .seconds drops days and microseconds)")
-        elif isinstance(pat, ast.MatchAs) and pat.pattern is None and pat.name:
-            got.add("number")
-            if not is_name(v, pat.name):
-                ob.fail(init, case, "a numeric period is not used as is")
-    if got != {"timedelta", "number"}:
-        ob.fail(init, ms[0], f"period normalisation covers {sorted(got)} (required: timedelta and number)")
+        v = unwrap(live[0].ast.value)  # type: ignore[union-attr]
+        oo = dinit.origins(v.func.value) if isinstance(v, ast.Call) and isinstance(v.func, ast.Attribute) else dinit.origins(v)
+        if value is a_delta:
+            if not (isinstance(v, ast.Call) and isinstance(v.func, ast.Attribute) and v.func.attr == "total_seconds" and oo <= {"param:period"} and oo):
+                ob.fail(init, live[0].ast, "a timedelta period is not converted with total_seconds() (e.g. .seconds drops days and microseconds)")
+        else:
+            if not (oo <= {"param:period"} and oo and not isinstance(v, ast.Call)):
+                ob.fail(init, live[0].ast, "a numeric period is not used as is")
     lim = prog.cls("helpers.throttling._AsyncThrottle").attr_val.get("_limit", [])
     if not (len(lim) == 1 and is_name(lim[0], "limit")):
         ob.fail(init, None, "self._limit does not hold the configured limit")
